@@ -170,6 +170,10 @@ class Driver:
             for k in (idk, lk):
                 if b.get(k) is not None:
                     b[k] = b[k] - shift
+            if rb.get("posoff") and b.get("pos") is not None:
+                # stored positions that are NOT the centroids of the masks (detection centres next to a label image)
+                b["pos"] = [float(v) for v in b["pos"]]
+                b["pos"][-1] += 0.25
             g.add_node(n - nshift, **b)
         for u, v, a in tr.graph.edges(data=True):
             b = dict(a)
